@@ -7,6 +7,8 @@ Request kinds
   {"k": "bytes", "b": [byte values]}               Unit(bytes)
   {"k": "arith", "prog": [[op, arg], ...]}         a unit built by unit arithmetic
   {"k": "spell", "v": [text, ...]}                 several spellings of one expression
+  {"k": "history", "calls": [[kind, arg], ...]}    Unit(...) calls on one new registry (s: text, b: bytes, w: text with
+                                                   unit data handed in, c: a registry modification)
 Reply: see `describe`.
 """
 import json
@@ -278,6 +280,70 @@ def do_arith(prog):
     return d
 
 
+def unit_facts(u):
+    return {"expr": exact(u.expr), "sexpr": str(u.expr), "bv": float(u.base_value), "off": float(u.base_offset), "dims": str(u.dimensions)}
+
+
+def do_history(calls):
+    """a history of Unit(...) calls on ONE new registry.  Per call: whether the object came from the
+    registry's cache (identity with the cached object), what it is, and — the direct oracle's
+    reference, no model involved — whether it is what the same call gives on a registry that has
+    never been used."""
+    from unyt import dimensions
+    from unyt.unit_registry import UnitRegistry
+
+    def make(kind, arg, reg):
+        if kind == "w":
+            return Unit(arg, base_value=2.5, dimensions=dimensions.length, registry=reg)
+        return Unit(bytes(arg) if kind == "b" else arg, registry=reg)
+
+    reg = UnitRegistry()
+    out = []
+    nclear = 0
+    for kind, arg in calls:
+        if kind == "c":
+            nclear += 1
+            reg.add(f"c20aux{nclear}", 1.0, dimensions.length)
+            out.append({"o": "C"})
+            continue
+        text = arg
+        if kind == "b":
+            try:
+                text = bytes(arg).decode("utf-8")
+            except UnicodeDecodeError:
+                text = None
+        prev = reg._unit_object_cache.get(text) if text is not None else None
+        try:
+            u = make(kind, arg, reg)
+            d = {"o": "H" if (prev is not None and u is prev) else "B"}
+            d.update(unit_facts(u))
+        except BaseException as e:  # noqa: BLE001
+            u = None
+            d = {"o": "E", "exc": type(e).__name__}
+        try:
+            f = make(kind, arg, UnitRegistry())
+            fd = {"o": "B"}
+            fd.update(unit_facts(f))
+        except BaseException as e:  # noqa: BLE001
+            fd = {"o": "E", "exc": type(e).__name__}
+        bad = []
+        if d["o"] == "E" or fd["o"] == "E":
+            if (d["o"] == "E") != (fd["o"] == "E") or d.get("exc") != fd.get("exc"):
+                bad.append("outcome")
+        else:
+            if d["sexpr"] != fd["sexpr"]:
+                bad.append("expr")
+            if d["dims"] != fd["dims"]:
+                bad.append("dimensions")
+            if not same_float(d["bv"], fd["bv"]):
+                bad.append("scale")
+            if not same_float(d["off"], fd["off"]):
+                bad.append("offset")
+        d["vs_fresh"] = "+".join(bad) if bad else "same"
+        out.append(d)
+    return {"r": "history", "calls": out, "cached": len(reg._unit_object_cache)}
+
+
 def do_spell(variants):
     """all spellings must be accepted and give equal units (==, same dimensions); the parsed
     expressions are returned for the comparison with the model"""
@@ -318,6 +384,8 @@ def main():
                 rep["vocab"] = None
         elif k == "arith":
             rep = do_arith(req["prog"])
+        elif k == "history":
+            rep = do_history(req["calls"])
         elif k == "spell":
             rep = do_spell(req["v"])
         else:
